@@ -10,10 +10,15 @@
                `str.splitlines` is `Spec.strSplitlines` (the set of line-boundary characters is a
                parameter).
   `ljust/rjust`, `__getattr__` delegation: as written.
-  `fmtstr(text, **atts)` with `atts` the attribute dict of an existing FmtStr and `text` free of `ESC [`
-  is `FmtStr(Chunk(text, atts))`: `parse_args` returns such a dict unchanged (`C14_parse_own_atts`).
+  `fmtstr(text, **atts)` with `atts` the attribute dict of an existing FmtStr is modelled as written
+  (`fmtstrAtts`): `FmtStr.from_str(text)` (`fromStr`, Model/EscParse.lean - a text with `ESC [` is PARSED for
+  escape sequences: the open finding D27), then `parse_args` on the keyword dict and `copy_with_new_atts`.
+  For a text free of `ESC [` this is `FmtStr(Chunk(text, atts))`: theorem `C15_fmtstrAtts` (from
+  `C14_parse_own_atts`).  `md` is CPython's int/str digit limit that the escape parser takes.
 -/
 import Curtsies.Model.FmtStr
+import Curtsies.Model.ParseArgs
+import Curtsies.Model.EscParse
 import Curtsies.Spec.StrMethods
 namespace Curtsies
 
@@ -36,8 +41,9 @@ def findSpansAux (sep : Text) : Text → Nat → Nat → List (Nat × Nat)
 
 def findSpans (sep : Text) (s : Text) : List (Nat × Nat) := findSpansAux sep s 0 0
 
-/-- `f.split(sep)` for an explicit non-empty separator. -/
-def splitSep (f : FmtStr) (sep : Text) : List FmtStr := splitSpans f (findSpans sep (text f))
+/-- `f.split(sep)` for an explicit separator (`regex=False`): an empty separator raises ValueError, as `str`. -/
+def splitSep (f : FmtStr) (sep : Text) : Except PyErr (List FmtStr) :=
+  if sep.isEmpty then .error .valueError else .ok (splitSpans f (findSpans sep (text f)))
 
 /-! ### splitlines -/
 
@@ -54,17 +60,21 @@ def splitlines (isBreak : Char → Bool) (f : FmtStr) (keepends : Bool) : List F
 
 /-! ### ljust / rjust -/
 
-/-- `fmtstr(text, **atts)` for the attribute dict of an existing FmtStr, ESC-free text. -/
-def fmtstrAtts (t : Text) (a : Atts) : FmtStr := [⟨t, a⟩]
+/-- `fmtstr(text, **atts)` for the attribute dict of an existing FmtStr, ESC-free text: `from_str`, `parse_args`
+    (no positional argument, so `str.lower` is never consulted), `copy_with_new_atts`. -/
+def fmtstrAtts (md : Nat) (t : Text) (a : Atts) : Except PyErr FmtStr :=
+  match fromStr md t with
+  | .ok f => fmtstrApply (fun s => s) f [] a.toKw
+  | .error e => .error e
 
 /-- `FmtStr.ljust(width, fillchar=None)`; `fillchar` a one-character str (anything else is a TypeError
     of `str.ljust`, outside the model). -/
-def ljust (f : FmtStr) (width : Int) (fillchar : Option Char) : Except PyErr FmtStr :=
+def ljust (md : Nat) (f : FmtStr) (width : Int) (fillchar : Option Char) : Except PyErr FmtStr :=
   match fillchar with
   | some c =>
     -- fmtstr(self.s.ljust(width, fillchar), **self.shared_atts)
     match sharedAtts f with
-    | .ok sh => .ok (fmtstrAtts (Spec.pyLjust (text f) width c) sh)
+    | .ok sh => fmtstrAtts md (Spec.pyLjust (text f) width c) sh
     | .error e => .error e
   | none =>
     let toAdd := spaces (width - (text f).length).toNat        -- " " * (width - len(self.s))
@@ -72,17 +82,24 @@ def ljust (f : FmtStr) (width : Int) (fillchar : Option Char) : Except PyErr Fmt
     | .error e => .error e
     | .ok shared =>
       if shared.bg.isSome then
-        .ok (if toAdd.isEmpty then f else add f (fmtstrAtts toAdd { bg := shared.bg }))
+        -- return self + fmtstr(to_add, bg=shared["bg"]) if to_add else self
+        if toAdd.isEmpty then .ok f
+        else match fmtstrAtts md toAdd { bg := shared.bg } with
+          | .ok pad => .ok (add f pad)
+          | .error e => .error e
       else
         let uniform := newWithAttsRemoved f [.bg]
-        .ok (if toAdd.isEmpty then uniform else add uniform (fmtstrAtts toAdd shared))
+        if toAdd.isEmpty then .ok uniform
+        else match fmtstrAtts md toAdd shared with
+          | .ok pad => .ok (add uniform pad)
+          | .error e => .error e
 
 /-- `FmtStr.rjust(width, fillchar=None)` -/
-def rjust (f : FmtStr) (width : Int) (fillchar : Option Char) : Except PyErr FmtStr :=
+def rjust (md : Nat) (f : FmtStr) (width : Int) (fillchar : Option Char) : Except PyErr FmtStr :=
   match fillchar with
   | some c =>
     match sharedAtts f with
-    | .ok sh => .ok (fmtstrAtts (Spec.pyRjust (text f) width c) sh)
+    | .ok sh => fmtstrAtts md (Spec.pyRjust (text f) width c) sh
     | .error e => .error e
   | none =>
     let toAdd := spaces (width - (text f).length).toNat
@@ -90,36 +107,49 @@ def rjust (f : FmtStr) (width : Int) (fillchar : Option Char) : Except PyErr Fmt
     | .error e => .error e
     | .ok shared =>
       if shared.bg.isSome then
-        .ok (if toAdd.isEmpty then f else add (fmtstrAtts toAdd { bg := shared.bg }) f)
+        if toAdd.isEmpty then .ok f
+        else match fmtstrAtts md toAdd { bg := shared.bg } with
+          | .ok pad => .ok (add pad f)
+          | .error e => .error e
       else
         let uniform := newWithAttsRemoved f [.bg]
-        .ok (if toAdd.isEmpty then uniform else add (fmtstrAtts toAdd shared) uniform)
+        if toAdd.isEmpty then .ok uniform
+        else match fmtstrAtts md toAdd shared with
+          | .ok pad => .ok (add pad uniform)
+          | .error e => .error e
 
 /-! ### `__getattr__` delegation -/
 
-/-- What a `str` method can return: text, a list of texts, or anything else (int, bool, tuple …). -/
+/-- What a `str` method can return: text, a list of texts, bytes (`encode`), or anything else (int, bool,
+    tuple …). -/
 inductive StrResult (β : Type)
-  | str (t : Text) | list (ts : List Text) | other (b : β)
+  | str (t : Text) | list (ts : List Text) | bytes (bs : List Nat) | other (b : β)
 
 inductive DelResult (β : Type)
-  | fmt (f : FmtStr) | fmtList (fs : List FmtStr) | other (b : β)
+  | fmt (f : FmtStr) | fmtList (fs : List FmtStr) | bytes (bs : List Nat) | other (b : β)
+  deriving DecidableEq
 
 /-- `func_help`: call the str method `m` on `self.s`, re-wrap str / list-of-str results with
     `fmtstr(x, **self.shared_atts)` (evaluated per element: an empty list never touches `shared_atts`),
-    hand anything else back unchanged; an exception of the str method propagates. -/
-def delegate (f : FmtStr) (m : Text → Except PyErr (StrResult β)) : Except PyErr (DelResult β) :=
+    hand anything else - bytes included (fix 6a18958) - back unchanged; an exception of the str method
+    propagates. -/
+def delegate (md : Nat) (f : FmtStr) (m : Text → Except PyErr (StrResult β)) : Except PyErr (DelResult β) :=
   match m (text f) with
   | .error e => .error e
   | .ok (.str t) =>
     match sharedAtts f with
-    | .ok sh => .ok (.fmt (fmtstrAtts t sh))
+    | .ok sh =>
+      match fmtstrAtts md t sh with
+      | .ok r => .ok (.fmt r)
+      | .error e => .error e
     | .error e => .error e
   | .ok (.list ts) =>
     match ts.mapM (fun t => match sharedAtts f with
-                            | .ok sh => Except.ok (fmtstrAtts t sh)
+                            | .ok sh => fmtstrAtts md t sh
                             | .error e => .error e) with
     | .ok fs => .ok (.fmtList fs)
     | .error e => .error e
+  | .ok (.bytes bs) => .ok (.bytes bs)
   | .ok (.other b) => .ok (.other b)
 
 end Curtsies
